@@ -391,7 +391,7 @@ fn scoping_cfg() -> gen::GenCfg {
 }
 
 pub fn run(ctx: &Ctx) {
-    ctx.set_rule("(a) every digit string of length <= N over a 13-symbol scope-operation alphabet on one variable and one function name {read, declare fresh constant, assign fresh constant, += 1, call f, block, if, two-iteration for, fn f, f = closure, f = closure returned by a maker with its own x, self-recursive function with fuel, call with a parameter of the same name} with bodies drawn from the same alphabet to depth 2, at top level, inside a function and at the bottom of 7..12 nested scopes of mixed kinds; the use / closure / local declaration / call pattern in all 192 combinations at nesting depth 0..12 (quick: N = 4 complete, N = 5 sampled; thorough: N = 6 complete), (b) random larger programs with 60% shadowing and many closures, (c) renaming every occurrence of one generated identifier to an unused name; oracle: (a)(b) the reference interpreter on stdout and success/failure, (c) identical stdout and status. Non-trivial = the case distinguishes at least one of the wrong semantics dynamic scoping / capture by value / one frame per function / frame shared by iterations / assignment declares / declaration assigns to an outer variable (counts per variant under labels); distinct = distinct source texts");
+    ctx.set_rule("(a) every digit string of length <= N over a 13-symbol scope-operation alphabet on one variable and one function name {read, declare fresh constant, assign fresh constant, += 1, call f, block, if, two-iteration for, fn f, f = closure, f = closure returned by a maker with its own x, self-recursive function with fuel, call with a parameter of the same name} with bodies drawn from the same alphabet to depth 2, at top level, inside a function and at the bottom of 7..12 nested scopes of mixed kinds; the use / closure / local declaration / call pattern in all 192 combinations at nesting depth 0..12 (quick: N = 4 complete, N = 5 sampled; thorough: N = 6 complete), (b) random larger programs with 60% shadowing and many closures, (c) renaming every occurrence of one generated identifier to an unused name; oracle: (a)(b) the reference interpreter on stdout and success/failure, (c) identical stdout and status; all 625 plans of four loop turns over {plain, capture, capture then continue, continue, capture then break} x 3 loop kinds. Non-trivial = the case distinguishes at least one of the wrong semantics dynamic scoping / capture by value / one frame per function / frame shared by iterations / assignment declares / declaration assigns to an outer variable (counts per variant under labels); distinct = distinct source texts");
     ctx.replay_corpus(None);
     for len in 1..=4 {
         enumerate(ctx, len, 1);
